@@ -231,12 +231,12 @@ def run_real(exe, probes, models, slow):
     i, deaths = 0, 0
     env = core.qenv(4, 1, stack=65536)
     CHUNK = 1500             # one harness process per chunk (arena: 8000 words)
-    while i < len(probes) and deaths < 40:
+    while i < len(probes) and deaths < 12:       # (a hang costs `slow` seconds: after two of them the watchdog is shortened)
         lines = []
         for p, m in zip(probes[i:i + CHUNK], models[i:i + CHUNK]):
             # c1 (B has to wait for a lock the held A owns): once A is released both run at the same time and B may reach its
             # own hold point owning a lock A needs, so A is then given a short time only as well
-            lines.append("m %s %s %d %s %d %d %d %d %g" % (p + (m["c1"], 1 if (m["c2"] or m["c1"]) else 0, m["gearly"], slow)))
+            lines.append("m %s %s %d %s %d %d %d %d %g" % (p + (m["c1"], 1 if (m["c2"] or m["c1"]) else 0, m["gearly"], slow if deaths < 2 else 3.0)))
         rc, out, err = core.run_lines(exe, lines, timeout=900, env=env)
         if not out or not out[0].startswith("H "):
             raise core.BuildError("c01 micro3 harness did not start: rc=%s %s %s" % (rc, out[:1], err[-300:]))
